@@ -507,6 +507,10 @@ impl Prop for C16Prop {
             "open:residual-disagrees-with-original" => {
                 // the residual quotes a free variable: (1 . x), (q . x), (1 1 . x)
                 let r = v.case.get("residual")?.as_str()?;
+                // ... or a renamed let/assign-bound name as a constant: (1 . V20_$_2071848)
+                if r.contains("_$_") {
+                    return Some(id);
+                }
                 if ["x", "y", "z"].iter().any(|n| r.contains(&format!("1 . {n})")) || r.contains(&format!("q . {n})"))) {
                     return Some(id);
                 }
